@@ -314,6 +314,21 @@ class Executor(object):
                 if st is None:
                     raise OutOfSubset('empty container needs a typed destination (declare local_types / field type)')
                 return self.alloc_empty(st, pt)
+        if v.pt.kind == 'setof' and pt.kind == 'set' and st is not None and v.py.pt.kind in ('list', 'seq') and v.py.pt.args[0] == pt.args[0]:
+            # set(xs): a new set whose members are exactly the elements of xs (its size is left unspecified: between 0 and len(xs))
+            content = self.list_content(st, v.py) if v.py.pt.kind == 'list' else v.py.t
+            ref = self.new_ref(st, pt)
+            sv = SV(pt, ref)
+            mname, nname, m, nn = self._set_arrs(st, sv)
+            inner_sort = smt.arr_parts(m.sort)[1]
+            mem = fresh('setof', inner_sort)
+            bx = smt.BVar('sx%d' % len(st.pc), sort_of(pt.args[0]))
+            st.pc.append(smt.ForAll([bx], Eq(Select(mem, bx), smt.Contains(content, Unit(bx)))))
+            cnt = fresh('setn', INT)
+            st.pc.append(And(Ge(cnt, IntC(0)), Le(cnt, Len(content))))
+            st.heap[mname] = Store(m, ref, mem)
+            st.heap[nname] = Store(nn, ref, cnt)
+            return sv
         if pt.kind == 'opt' and pt.args[0].kind == 'mtag':
             if v.pt.kind == 'none':
                 return SV(pt, IntC(0))
